@@ -24,7 +24,7 @@ CHECKS = {
         "level": "exploration",
         "classes": ["C04"],
         "rule": HIST_RULE,
-        "budget_s": {"quick": 70, "thorough": 1500},
+        "budget_s": {"quick": 70, "thorough": 900},
         "batches": [
             {"family": "hist", "mode": "free", "cfgs": {"quick": QUICK3 + ["G"], "thorough": ALL_CFGS},
              "runs": {"quick": 12000, "thorough": 400000}},
@@ -39,7 +39,7 @@ CHECKS = {
         "classes": ["C14"],
         "rule": HIST_RULE + "; every plan is executed on two replicas (strings offered linked vs through copied kinds) "
                 "and every public accessor is compared after every operation",
-        "budget_s": {"quick": 70, "thorough": 1200},
+        "budget_s": {"quick": 70, "thorough": 900},
         "batches": [
             {"family": "hist", "mode": "twin", "cfgs": {"quick": ["A", "B"], "thorough": ["A", "B", "C", "D", "H"]},
              "runs": {"quick": 6000, "thorough": 150000}},
@@ -54,16 +54,16 @@ CHECKS = {
         "classes": ["C19", "C04"],
         "rule": HIST_RULE + "; 'free' plans are executed by every configuration of the build matrix and their observable "
                 "transcripts compared pairwise; 'limit' plans first fill the document up to the slot-id limit of the build",
-        "budget_s": {"quick": 80, "thorough": 1500},
+        "budget_s": {"quick": 80, "thorough": 900},
         "batches": [
             {"family": "hist", "mode": "free", "cfgs": {"quick": ["A", "B", "D", "F", "G", "I"], "thorough": ALL_CFGS + ["I"]},
              "runs": {"quick": 4000, "thorough": 60000}, "cross_config": True},
             {"family": "hist", "mode": "limit", "cfgs": {"quick": ["B", "C", "F"], "thorough": ["B", "C", "F"]},
              "runs": {"quick": 1500, "thorough": 40000}},
             {"family": "hist", "mode": "limit", "cfgs": {"quick": ["D", "E", "G", "I"], "thorough": ["D", "E", "G", "I"]},
-             "runs": {"quick": 48, "thorough": 1500}},
+             "runs": {"quick": 48, "thorough": 900}},
             {"family": "hist", "mode": "limit", "cfgs": {"quick": ["A"], "thorough": ["A", "H"]},
-             "runs": {"quick": 64, "thorough": 1500}},
+             "runs": {"quick": 64, "thorough": 900}},
         ],
         "probes": ["limit.slots_exhausted", "fill.hit_limit"],
         "components": COMPONENTS,
@@ -75,7 +75,7 @@ CHECKS = {
         "classes": ["C06"],
         "rule": HIST_RULE + "; every allocator call is checked against a ledger of live blocks shared by all allocator "
                 "instances of the run",
-        "budget_s": {"quick": 70, "thorough": 1500},
+        "budget_s": {"quick": 70, "thorough": 900},
         "batches": [
             {"family": "hist", "mode": "free", "cfgs": {"quick": ["A", "B", "D", "G"], "thorough": ALL_CFGS},
              "runs": {"quick": 12000, "thorough": 300000}},
@@ -90,7 +90,7 @@ CHECKS = {
         "rule": ("scenarios are hist plans of 3-25 operations; each is first run fault-free to count the failable allocator "
                  "calls of every operation, then replayed with every single-failure position and every fail-from position "
                  "of every operation (exhaustive per scenario, scenarios sampled); non-trivial = at least 3 executed operations"),
-        "budget_s": {"quick": 80, "thorough": 1500},
+        "budget_s": {"quick": 80, "thorough": 900},
         "batches": [
             {"family": "hist", "mode": "faultenum", "cfgs": {"quick": ["A", "B", "G"], "thorough": ALL_CFGS},
              "runs": {"quick": 1500, "thorough": 40000}},
@@ -123,7 +123,7 @@ CHECKS.update({
         "rule": ("one plan = one document serialized as compact or pretty JSON into every destination kind, into a buffer of "
                  "EVERY capacity 0..len+2 and into a custom writer / Print that stops accepting at EVERY offset (exhaustive per "
                  "document, documents sampled); distinct = distinct plan texts"),
-        "budget_s": {"quick": 70, "thorough": 1200},
+        "budget_s": {"quick": 70, "thorough": 900},
         "batches": [
             {"family": "sink", "mode": "json", "cfgs": {"quick": ["A", "B", "H"], "thorough": ALL_CFGS},
              "runs": {"quick": 18000, "thorough": 240000}},
@@ -142,7 +142,7 @@ CHECKS.update({
         "rule": ("one plan = one document serialized as MessagePack into every destination kind, into a buffer of EVERY capacity "
                  "0..len+2 and into short-writing sinks at EVERY offset; sizes and magnitudes concentrated on header-width "
                  "boundaries; decoded by the independent decoder"),
-        "budget_s": {"quick": 70, "thorough": 1200},
+        "budget_s": {"quick": 70, "thorough": 900},
         "batches": [
             {"family": "sink", "mode": "mp", "cfgs": {"quick": ["A", "D", "H"], "thorough": ALL_CFGS},
              "runs": {"quick": 18000, "thorough": 240000}},
@@ -157,7 +157,7 @@ CHECKS.update({
         "level": "exploration",
         "classes": ["C03"],
         "rule": XFER_RULE,
-        "budget_s": {"quick": 80, "thorough": 1500},
+        "budget_s": {"quick": 80, "thorough": 900},
         "batches": [
             {"family": "xfer", "mode": "any", "cfgs": {"quick": ["A", "B", "C", "D", "H"], "thorough": ALL_CFGS},
              "runs": {"quick": 36000, "thorough": 600000}},
@@ -177,7 +177,7 @@ CHECKS.update({
         "rule": ("one plan = one well-formed MessagePack object from the independent encoder with seeded non-minimal widths; "
                  "EVERY proper prefix of it is delivered (exhaustive per object, objects sampled), or single-byte corruptions "
                  "(all 255 masks at one offset, 12 masks at three more)"),
-        "budget_s": {"quick": 80, "thorough": 1500},
+        "budget_s": {"quick": 80, "thorough": 900},
         "batches": [
             {"family": "xfer", "mode": "mpprefix", "cfgs": {"quick": ["A", "B", "H"], "thorough": ALL_CFGS},
              "runs": {"quick": 9000, "thorough": 160000}},
@@ -198,7 +198,7 @@ CHECKS.update({
         "rule": ("one plan = one JSON text from the independent writer; EVERY proper prefix of it is delivered (exhaustive per "
                  "text), or one structural token is replaced by a wrong one, or a documented dialect extension is spliced in; "
                  "expected classes are known by construction, not from a second recogniser"),
-        "budget_s": {"quick": 80, "thorough": 1500},
+        "budget_s": {"quick": 80, "thorough": 900},
         "batches": [
             {"family": "xfer", "mode": "jsonprefix", "cfgs": {"quick": ["A", "B", "C"], "thorough": ALL_CFGS},
              "runs": {"quick": 4800, "thorough": 80000}},
@@ -218,7 +218,7 @@ CHECKS.update({
         "classes": ["C11"],
         "rule": ("one plan = one (input, filter) pair; the input is run with and without the filter through the same reader kind "
                  "on instrumented allocators; inputs are valid, truncated or corrupted; non-trivial: always"),
-        "budget_s": {"quick": 80, "thorough": 1500},
+        "budget_s": {"quick": 80, "thorough": 900},
         "batches": [
             {"family": "xfer", "mode": "filter", "cfgs": {"quick": ["A", "B", "D", "H"], "thorough": ALL_CFGS},
              "runs": {"quick": 72000, "thorough": 1200000}},
@@ -284,7 +284,7 @@ CHECKS["C20"] = {
              "optionally all reading one shared document through JsonVariantConst (copy source, filter, comparison, "
              "serialization), plus a seeded schedule of 1-64 preemptions placed guard-first on library basic blocks; "
              "distinct = distinct plan texts (the schedule seed is part of the text)"),
-    "budget_s": {"quick": 80, "thorough": 1500},
+    "budget_s": {"quick": 80, "thorough": 900},
     "batches": [
         {"family": "conc", "mode": "parked", "kind": "conc", "cfgs": {"quick": ["A", "B"], "thorough": ["A", "B", "H", "G"]},
          "runs": {"quick": 1400, "thorough": 60000}},
